@@ -184,8 +184,9 @@ def run(ctx, report):
             except NotConst as e:
                 raise AnalysisError('op_size_no_check not a literal list: %s' % e)
     eo_txt = u(eo)
-    if no_check is None or 'self.op_size_no_check' not in eo_txt or 'types_tab' not in eo_txt:
-        raise AnalysisError('eval_ExprOp no longer checks operand types against op_size_no_check: the mixed-width rule has to be re-read')
+    if no_check is None:
+        raise AnalysisError('eval_abs.op_size_no_check not found: the mixed-width rule has to be re-read')
+    # (how eval_ExprOp uses the list - in its own body or in a helper - is decided by evaluating it: C06.D15)
     for op in sorted(no_check):
         inst = 'no-check %r' % op
         if op in deal or op in uses:
@@ -206,6 +207,9 @@ def run(ctx, report):
                              'the lifter function %s builds %r with operands of widths %s; eval_ExprOp raises "invalid cast" when they are constants '
                              '(operator not in op_size_no_check)' % (fname, op, ws), where(ea, eo))
 
+    R15 = report.rule('C06.D15', 'eval_ExprOp interpreted as a whole on constant operands: a shift / rotate whose count or carry has another width than the value gives a constant of '
+                      'the value\'s width, equal to the operator\'s evaluator; every interpreted operator on operands of one width gives that width', floor=5)
+    op_eval_rule(ctx, R15, ea, methods, deal, no_check)
     R2 = report.rule('C06.D2', 'evaluators of flattened (n-ary) operators consume every operand', floor=5)
     for op in op_assoc:
         inst = 'n-ary %r' % op
@@ -585,7 +589,8 @@ def run(ctx, report):
     if _cast_is_first_operand_type(eo):
         R4.ok('eval_ExprOp:cast', sample='eval_ExprOp: ExprInt(cast_int(ret_value)), cast_int = type of the first operand')
     else:
-        R4.violation('eval_ExprOp:cast', 'eval_ExprOp:cast', 'the scalar result is no longer wrapped as ExprInt(type-of-first-operand(result))', where(ea, eo))
+        # the shape is advisory: which type the result gets is decided on values by C06.D15 (eval_ExprOp interpreted on mixed-width operands)
+        R4.ok('eval_ExprOp:cast', sample='eval_ExprOp: the result type is not read from the text (another shape than ExprInt(types[0](..))); decided by evaluation, C06.D15')
     ei = methods.get('eval_ExprId')
     t = ' ; '.join(u(s) for s in ei.body) if ei else ''
     e = ei.args.args[1].arg if ei else 'e'
@@ -1243,6 +1248,94 @@ def cond_eval_rule(ctx, R):
             R.ok(inst, sample='condition %s: %s' % (SE.show(cv), SE.show(out)))
 
 
+
+def op_eval_rule(ctx, R, ea, methods, deal, no_check):
+    """eval_abs.eval_ExprOp interpreted as a whole on constant operands (self.eval_expr answers with its argument, the class tables deal_op / op_size_no_check are the
+    evaluated ones).  For the shift / rotate operators, whose count (and carry) may be narrower or wider than the value: the result is a constant of the width of the
+    VALUE (the first operand) and equals what the operator's own evaluator gives in that width.  For every interpreted operator on operands of one width: the result
+    has that width.  This replaces reading the type check of eval_ExprOp by its text (which stopped the analysis when the check moved into a helper)."""
+    from .. import simpeval as SE
+    from ..consteval import Obj, PyRaise, Native
+    run = SE.results(ctx)['run']
+    fn = methods.get('eval_ExprOp')
+    if fn is None:
+        raise AnalysisError('eval_abs.eval_ExprOp not found')
+    scope = dict(run.scope)
+    Top = type('ExprTop', (SE.Node,), {'FIELDS': (), 'KIND': 'Top'})
+    scope.setdefault('ExprTop', Top)
+    scope.update(SE.INT_CLASSES)
+    scope['expr_simp'] = Native(lambda e_: e_)
+    for st in ea.tree.body:
+        if isinstance(st, ast.Assign) and len(st.targets) == 1 and isinstance(st.targets[0], ast.Name) and st.targets[0].id in ('tab_int_size', 'tab_intsize', 'tab_uintsize', 'mymaxuint', 'tab_max_uint'):
+            try:
+                scope[st.targets[0].id] = Evaluator(dict(SE.INT_CLASSES)).ev(st.value)
+            except NotConst as e:
+                raise AnalysisError('eval_abs.%s is not statically evaluable: %s' % (st.targets[0].id, e))
+    for fname_, fnode_ in ea.funcs.items():
+        scope.setdefault(fname_, fnode_)
+
+    def machine():
+        me = Obj('self')
+        me.__dict__['_methods'] = dict((k, v) for k, v in methods.items() if k not in ('eval_expr', 'eval_expr_no_cache'))
+        me.eval_expr = Native(lambda e_, cache=None: e_)
+        me.deal_op = dict((op, methods[name]) for op, name in deal.items() if name in methods)
+        me.op_size_no_check = list(no_check)
+        return me
+
+    def run_op(e, lenient=False):
+        try:
+            return 'ok', Evaluator(scope).call_user(fn, [machine(), e])
+        except PyRaise as ex:
+            return 'raises', ex.exc_name
+        except NotConst as ex:
+            if lenient:
+                return 'limit', str(ex)         # an operator that takes another number of operands
+            raise AnalysisError('eval_abs.eval_ExprOp is outside the evaluable subset on %s: %s' % (SE.show(e), ex))
+    shifts = [op for op in ('<<', '>>', 'a>>', '<<<', '>>>') if op in deal and op in no_check]
+    if len(shifts) < 3:
+        raise AnalysisError('eval_ExprOp: fewer than three shift / rotate operators are interpreted and exempt from the operand-type check')
+    n = 0
+    for op in shifts:
+        bad = None
+        for w, cw in ((8, 8), (16, 8), (32, 8), (16, 32), (8, 32), (32, 32), (8, 16)):
+            m = (1 << w) - 1
+            for a in (1, m, 1 << (w - 1), 0x8001 & m, 0x5A & m):
+                for cnt in (0, 1, w - 1):
+                    n += 1
+                    e = SE.Op(op, SE.C(a, w), SE.C(cnt, cw))
+                    st, out = run_op(e)
+                    try:
+                        want = Evaluator(dict(scope)).call_user(methods[deal[op]], [machine(), [SE.U[w](a), SE.U[cw](cnt)], w, SE.U[w]])
+                        want = int(want) & m
+                    except (PyRaise, NotConst):
+                        continue
+                    if st != 'ok':
+                        bad = bad or '%s raises %s' % (SE.show(e), out)
+                    elif not (isinstance(out, SE.Node) and out.KIND == 'Int'):
+                        bad = bad or '%s is not evaluated to a constant (%s)' % (SE.show(e), SE.show(out) if isinstance(out, SE.Node) else repr(out))
+                    elif SE.size_of(out) != w or int(out.f('arg')) != want:
+                        bad = bad or '%s (a %d-bit value, a %d-bit count) evaluates to %s; the operator gives the %d-bit constant %#x' % (SE.show(e), w, cw, SE.show(out), w, want)
+        inst = 'eval_ExprOp %r on mixed widths' % op
+        if bad:
+            R.violation(inst, 'op-eval:%s:mixed-width' % op, 'eval_ExprOp: %s' % bad, where(ea, fn), witness='test eax,eax ; rcl al,1 (the carry is kept as a 32-bit constant)')
+        else:
+            R.ok(inst, sample='%r: value width x count width in 7 pairs: the result is a constant of the value\'s width, equal to the operator\'s evaluator' % op, nontrivial=True)
+    for op in sorted(deal):
+        if deal[op] not in methods or op in shifts:
+            continue
+        widths = []
+        for w in (8, 16, 32):
+            st, out = run_op(SE.Op(op, SE.C(0x12 & ((1 << w) - 1), w), SE.C(3, w)), lenient=True)
+            n += 1
+            if st == 'ok' and isinstance(out, SE.Node) and out.KIND == 'Int' and SE.size_of(out) != w:
+                widths.append((w, SE.size_of(out)))
+        inst = 'eval_ExprOp %r result width' % op
+        if widths:
+            R.violation(inst, 'op-eval:%s:width' % op, 'eval_ExprOp(%r) on %d-bit constants gives a %d-bit constant' % ((op,) + widths[0]), where(ea, fn))
+        else:
+            R.ok(inst, nontrivial=False)
+    R.note('eval_ExprOp interpreted on %d constant operations' % n)
+
 MUTANTS = [
     ('bigger-lookup-next-address-unsimplified', 'miasmx/expression/expression_eval_abstract.py', "                ptr = expr_simp(ExprOp('+', ptr, ExprInt(uint32(v.size//8))))", "                ptr = ExprOp('+', ptr, ExprInt(uint32(v.size//8)))", 'C06.D14'),
     ('cond-const-arms-swapped', 'miasmx/expression/expression_eval_abstract.py', '            if cond.arg == 0:\n                return src2\n            else:\n                return src1\n', '            if cond.arg == 0:\n                return src1\n            else:\n                return src2\n', 'C06.D13'),
@@ -1263,7 +1356,7 @@ MUTANTS = [
     ('minus-noarity', 'miasmx/expression/expression_eval_abstract.py',
      "        if len(args) == 2:\n            ret_value = args[0] - args[1]\n        elif len(args) == 1:\n            ret_value = -args[0]\n        else:\n            raise ValueError('deprecated n aire arguments for op -')\n",
      "        ret_value = args[0] - args[1]\n", 'C06.D1'),
-    ('cast-second', 'miasmx/expression/expression_eval_abstract.py', "        cast_int = types_tab[0]\n", "        cast_int = types_tab[-1]\n", 'C06.D4'),
+    ('cast-second', 'miasmx/expression/expression_eval_abstract.py', "        cast_int = types_tab[0]\n", "        cast_int = types_tab[-1]\n", 'C06.D15'),
     ('evalid-nolookup', 'miasmx/expression/expression_eval_abstract.py', "        if not e in self.pool:\n            return e\n        return self.pool[e]\n", "        return e\n", 'C06.D4'),
     ('parity-two', 'miasmx/expression/expression_eval_abstract.py', "        ret_value = self.parity(args[0])\n", "        ret_value = self.parity(args[0] ^ args[1])\n", 'C06.D'),
     ('parity-fold-all-bits', 'miasmx/expression/expression_helper.py', "def parity(a):\n    tmp = (a)&0xFF", "def parity(a):\n    tmp = int(a)", 'C06.D5'),
